@@ -24,3 +24,48 @@ PROPS["C11"] = {
     "trusted": ["Go integer semantics as rendered by the translator (wrap_u/wrap_s over Z)"],
     "assumptions": ["DataIdentifier components are the three struct fields DataType, CoordinateSystem, Precision"],
 }
+
+FRAME_TRUSTED = ["Go slice model: contents + absolute indexing; an index outside the slice is the outcome OOB (panic with cap=len, foreign bytes with cap>len); the harness runs every input with both capacities"]
+
+PROPS["C02"] = {
+    "level_text": "Theorems (Props/C02.v) over the Gallina model of message.go: validate m = VOk <-> wf_frame m for every byte string, no out-of-bounds index, every single-byte corruption of a well-formed frame rejected, accessors in bounds, rendering total - general proofs by case analysis and modular arithmetic, no bound on length. The model is tied to the compiled code by bounded-exhaustive (protocol alphabet) and random differential correspondence at both slice capacities, and the client clause by stream-level correspondence.",
+    "level_note": "Trusted: Coq kernel, hand-written model of message.go (validated by correspondence, not generated), Go slice model, harness. No axioms.",
+    "technique": "Rocq proof over hand-written Gallina model + exhaustive/differential correspondence (vm_compute)",
+    "props_file": "Props/C02.v",
+    "eval_module": "Run.EvalFrame",
+    "kinds": {
+        "validate": {"type": "case_validate", "chk": "chk_validate", "sig": "sig_validate", "scope": "N_scope"},
+        "corrupt": {"type": "case_corrupt", "chk": "chk_corrupt", "sig": "sig_corrupt", "scope": "N_scope"},
+    },
+    "rule": "validate: every string over {fa,ff,00,01,02,fe} up to length 4 (thorough 5), the same behind a fa ff header, corpus of past failures, random frames (lengths biased to 0,1,253-256,2046-2048) and 1-2 mutations each; every input with cap=len and cap=len+3. corrupt: frames x positions x deltas (all 255 deltas x all positions for one frame). non-trivial = the model's validate leaves through a branch other than 'too few bytes on empty input' / corruption of a well-formed frame; distinct = distinct case terms",
+    "trusted": FRAME_TRUSTED,
+    "assumptions": ["bytes are modelled as N < 256; String() is observed through its three output shapes"],
+}
+
+PROPS["C06"] = {
+    "level_text": "Theorems (Props/C06.v): for every identifier and every payload of 0..2048 bytes new_message yields a wf_frame that validate accepts, whose accessors read back identifier/length/payload, extended exactly from 255 bytes, zero checksum, and which the reference segmentation (to which C01 reduces every read fragmentation) delivers unchanged; is_error/error_code characterised on every accepted frame. General proofs. Correspondence: every payload length 0..2048 (thorough; quick: every length to 300 then every 9th) and all 256 error codes against NewMessage/Validate/bufio.Scanner.",
+    "level_note": "Trusted: Coq kernel, hand-written model of NewMessage (validated by correspondence), harness. No axioms.",
+    "technique": "Rocq proof over hand-written Gallina model + exhaustive-by-length correspondence (vm_compute)",
+    "props_file": "Props/C06.v",
+    "eval_module": "Run.EvalFrame",
+    "kinds": {"newmsg": {"type": "case_newmsg", "chk": "chk_newmsg", "sig": "sig_newmsg", "scope": "N_scope"}},
+    "rule": "NewMessage(mid, payload): boundary lengths x identifiers, every length (see tier), adversarial content (FA FF runs, embedded frames), all 256 error codes; observable = frame bytes, Validate verdict, tokens a real bufio.Scanner(ScanMessages) delivers, all accessors; non-trivial = payload non-empty / boundary length class / error identifier / contains FA; distinct = distinct case terms",
+    "trusted": FRAME_TRUSTED,
+    "assumptions": ["payload length < 65536 (the property quantifies over 0..2048)"],
+}
+
+PROPS["C07"] = {
+    "level_text": "Theorems (Props/C07.v): packet_at returns exactly sub payload i (3+len) or 'insufficient', never out of bounds, for every payload and every offset; the returned packet lies inside the payload; walking a concatenation of packets recovers exactly them and ends at the payload's end (induction over the packet list); each step consumes >= 3 bytes; the constructor is correct for all lengths 0..255 and identifiers. Correspondence: alphabet-exhaustive payloads x all offsets x both capacities, random walks, all 256 constructor lengths.",
+    "level_note": "Trusted: Coq kernel, hand-written model of mtdata2.go (validated by correspondence), Go slice model, harness. No axioms.",
+    "technique": "Rocq proof (induction over packet lists) over hand-written Gallina model + exhaustive/differential correspondence",
+    "props_file": "Props/C07.v",
+    "eval_module": "Run.EvalFrame",
+    "kinds": {
+        "pktat": {"type": "case_pktat", "chk": "chk_pktat", "sig": "sig_pktat", "scope": "N_scope"},
+        "walk": {"type": "case_walk", "chk": "chk_walk", "sig": "sig_walk", "scope": "N_scope"},
+        "newpkt": {"type": "case_newpkt", "chk": "chk_newpkt", "sig": "sig_newpkt", "scope": "N_scope"},
+    },
+    "rule": "pktat: every payload over {00,01,02,03,ff} up to length 4 (thorough 6) x every offset 0..len x capacity len and len+4; random packet sequences with offsets at/inside packets, truncations in the Message.Data() shape (spare capacity holding further bytes). walk: random packet sequences. newpkt: all 256 lengths x 4 identifiers. non-trivial = offset not at the end of an empty remainder / more than zero packets / length > 0; distinct = distinct case terms",
+    "trusted": FRAME_TRUSTED,
+    "assumptions": ["offsets are non-negative (the property quantifies over 0..len)"],
+}
